@@ -417,6 +417,21 @@ def stderr_check(n, vary, rng):
             got = out['c%d_%s' % (i, p)].stderr
             if got is None or not (abs(got - want[r]) <= 1e-4 * max(1e-12, abs(want[r]))):
                 return True, 'fisher-matrix', 'covar_errors(%s): component %d %s stderr %r, but sqrt of the own diagonal entry of inv(J^T C^-1 J) is %r' % (label, i, p, got, float(want[r]))
+    # the same source in units a million times smaller (a micro-Jy source in a Jy map) at the same signal to noise: the Fisher
+    # matrix is badly scaled, not singular; the amplitude error scales with the flux and every other error is unchanged
+    scale = 1e-6
+    pars2 = copy.deepcopy(pars)
+    for i in range(n):
+        pars2['c%d_amp' % i].value = pars2['c%d_amp' % i].value * scale
+    J2 = fit.lmfit_jacobian(pars2, mask[0], mask[1], errs=scale)
+    F2 = J2.T.dot(real_np.linalg.inv(Cm)).dot(J2)
+    dsc = 1.0 / real_np.sqrt(real_np.diag(F2))
+    want2 = real_np.sqrt(real_np.diag(dsc[:, None] * real_np.linalg.inv(F2 * dsc[:, None] * dsc[None, :]) * dsc[None, :]))
+    out2 = fit.covar_errors(copy.deepcopy(pars2), data, errs=scale, B=Bm, C=Cm)
+    for r, (i, p) in enumerate(free):
+        got = out2['c%d_%s' % (i, p)].stderr
+        if got is None or not (abs(got - want2[r]) <= 1e-4 * max(1e-30, abs(want2[r]))):
+            return True, 'fisher-matrix-scaling', 'covar_errors(B and C) on amplitudes of 1e-6: component %d %s stderr %r, the (diagonally rescaled) inverse Fisher matrix gives %r' % (i, p, got, float(want2[r]))
     return False, None, None
 
 
